@@ -307,6 +307,17 @@ func init() {
 		}
 		return acc
 	})
+	reg("strings.Clone", func(ex *Exec, fr *frame, a []value) value { return a[0] })
+	reg("internal/stringslite.Clone", func(ex *Exec, fr *frame, a []value) value { return a[0] })
+	reg("bytes.Clone", func(ex *Exec, fr *frame, a []value) value {
+		s, _ := a[0].([]value)
+		if s == nil {
+			return []value(nil)
+		}
+		out := make([]value, len(s))
+		copy(out, s)
+		return out
+	})
 	reg("(*strings.Builder).copyCheck", func(ex *Exec, fr *frame, a []value) value { return nil })
 
 	// ---- unicode/utf8 ---------------------------------------------------------
